@@ -482,6 +482,18 @@ def bp_check(spec, root):
         probs.append(("from_log-raised", f"Packing.from_log: "
                       f"{type(e).__name__}: {e}"[:300]))
     try:
+        # first with the run's own objective only, then with the defaults:
+        # each result must carry exactly the objectives that were asked for
+        # (whatever was parsed before for an instance of the same name)
+        own = bp_tools()["obj"][spec["obj"]]
+        with quiet():
+            pr1 = from_single_log(o["log"], [own])
+        if sorted(pr1.objectives) != [spec["obj"]] \
+                or pr1.objectives[spec["obj"]] != mv[spec["obj"]]:
+            probs.append(("from_single_log-own-objective-only",
+                          "from_single_log(log, [the run's objective]) "
+                          f"returns objectives {dict(pr1.objectives)}, "
+                          f"expected only {spec['obj']}={mv[spec['obj']]}"))
         with quiet():
             pr = from_single_log(o["log"])
         bp_parsed_checks(pr, spec, inst, o, mv, probs)
